@@ -27,6 +27,7 @@ exploration on every run.  Proved here:
 import JPV.Impl.Regex
 import JPV.Spec.IRegexp
 import JPV.Proofs.Regex
+import JPV.Proofs.IRegexpAbnfEquiv
 namespace JPV.Props
 open JPV JPV.Impl
 
@@ -51,5 +52,29 @@ theorem C11_semantics (p : Str) (r : Spec.IRe.Re) (hp : Spec.IRe.parse p = some 
     (Spec.IRe.fullMatch r s = true ↔ Proofs.Matches r s) ∧
     (Spec.IRe.searchMatch r s = true ↔ ∃ pre mid post, s = pre ++ mid ++ post ∧ Proofs.Matches r mid) :=
   Proofs.deriv_correct r (Proofs.parse_reOk p r hp) s
+
+/-- the oracle's pattern recogniser decides exactly the DECLARATIVE grammar of RFC 9485 §4 (`Spec/IRegexpAbnf.lean`:
+one inductive per non-terminal, no lookahead, no fuel), with the same syntax tree; the grammar is unambiguous -/
+theorem C11_grammar (p : Str) (r : Spec.IRe.Re) :
+    Spec.IRe.parse p = some r ↔ Spec.IReAbnf.IRegexp p r := Proofs.ire_parse_iff p r
+
+theorem C11_grammar_unambiguous (p : Str) (r r' : Spec.IRe.Re) :
+    Spec.IReAbnf.IRegexp p r → Spec.IReAbnf.IRegexp p r' → r = r' := Proofs.ire_unambiguous p r r'
+
+/-- `C11_translation` and `C11_semantics` for every pattern the declarative grammar derives -/
+theorem C11_translation_abnf (p : Str) (r : Spec.IRe.Re) (h : Spec.IReAbnf.IRegexp p r) :
+    Impl.mapRe p = Proofs.translateDots p :=
+  C11_translation p (by rw [(C11_grammar p r).2 h]; rfl)
+
+theorem C11_semantics_abnf (p : Str) (r : Spec.IRe.Re) (h : Spec.IReAbnf.IRegexp p r) (s : List Spec.IRe.CChar) :
+    (Spec.IRe.fullMatch r s = true ↔ Proofs.Matches r s) ∧
+    (Spec.IRe.searchMatch r s = true ↔ ∃ pre mid post, s = pre ++ mid ++ post ∧ Proofs.Matches r mid) :=
+  C11_semantics p r ((C11_grammar p r).2 h) s
+
+-- not vacuous: a pattern with a class, a category escape, a counted group and an alternative is derivable
+example : ∃ r, Spec.IReAbnf.IRegexp "[^a-c\\p{Lu}-]+(x|\\.){2,3}".toList r := by
+  cases h : Spec.IRe.parse "[^a-c\\p{Lu}-]+(x|\\.){2,3}".toList with
+  | some r => exact ⟨r, (C11_grammar _ r).1 h⟩
+  | none => exact absurd h (by decide +kernel)
 
 end JPV.Props
